@@ -104,7 +104,7 @@ def _full_range_loop(ctx, f, loop, group):
     return False
 
 
-def r121(ctx, rep):
+def r121(ctx, rep, rule="R12.1"):
     plan = [
         (UPD, Q_UPDATE, "updated"),
         (SHIFT, Q_SHIFT, "shifted"),
@@ -135,8 +135,8 @@ def r121(ctx, rep):
         for grp in GROUPS:
             desc = f"{f.local}: {grp} {verb}"
             if grp not in found:
-                rep.bad("R12.1", desc)
-                rep.finding("R12.1", f, f"{grp} not {verb}", f.node.lineno, f"the `{grp}` model(s) are not {verb} by {f.local}: they would no longer interpolate the recorded values")
+                rep.bad(rule, desc)
+                rep.finding(rule, f, f"{grp} not {verb}", f.node.lineno, f"the `{grp}` model(s) are not {verb} by {f.local}: they would no longer interpolate the recorded values")
                 continue
             for ev, recv in found[grp]:
                 d2 = f"{f.local}:{ev.line} {grp} {verb} by `{ev.text()[:50]}`"
@@ -180,10 +180,10 @@ def r121(ctx, rep):
                 if not problems and nid is not None and not loops and not cfg.postdominates(nid, cfg.entry):
                     problems.append("the call is not on every path of the function")
                 if problems:
-                    rep.bad("R12.1", d2)
-                    rep.finding("R12.1", f, ev.text()[:120], ev.line, f"{grp} model not {verb} on every path: " + "; ".join(problems))
+                    rep.bad(rule, d2)
+                    rep.finding(rule, f, ev.text()[:120], ev.line, f"{grp} model not {verb} on every path: " + "; ".join(problems))
                 else:
-                    rep.ok("R12.1", d2 + " unconditionally")
+                    rep.ok(rule, d2 + " unconditionally")
 
 
 # ---------------------------------------------------------------------------
